@@ -198,6 +198,11 @@ func c45Body(p Params) func() {
 		if err != nil {
 			vsched.HarnessError("newWatcher: %v", err)
 		}
+		vsched.Observe(func(op, obj string) {
+			if op == "wg.add" && obj == "watcher.wsclientsWG" && w.Closing() {
+				vsched.Failf("client-admitted-after-shutdown:registered-while-closing", "a client handler was added to wsclientsWG although the closing flag was already set")
+			}
+		})
 		var lateErr error
 		lateDone := false
 		vsched.Go("closer", func() {
